@@ -337,31 +337,39 @@ def iterators(prog, res):
         res.oblige(R, inst, True, "%d return state(s)" % len(rets), f.loc())
     g = prog.func("vfslice_split_at_delay_ms")
     res.touched(g)
-    rec = {"pre": [], "back": []}
-    an = L.Analysis(prog, on_loop_pre=lambda f_, h, s_: rec["pre"].append(s_.copy()) if f_ is g else None,
-                    on_backedge=lambda f_, h, s_: rec["back"].append(s_.copy()) if f_ is g else None)
-    an.run(g, L.State())
     loops = paths.natural_loops(g)
-    problems = []
     if len(loops) != 1:
         raise AnalysisBroken("vfslice_split_at_delay_ms: expected one walk over the frames")
     head, body = loops[0]
+    rec = {"pre": [], "back": []}
+    an = L.Analysis(prog)
     ivs = {an.cellkey(g, lv, L.State()) for b in body for s_ in g.blocks[b].stmts for lv, op, rhs, w in ir.writes_of(s_)
            if ir.strip(lv).get("k") == "var"}
-    if len(ivs) != 1 or not rec["pre"] or not rec["back"]:
+    iv = ivs.pop() if len(ivs) == 1 else None
+
+    def entry(f_, h, s_):
+        if f_ is g and iv:
+            v = [x for x in g.blocks[head].stmts]  # force the cursor's symbol into existence
+            cur_nodes = [y for b in body for st_ in g.blocks[b].stmts for y in ir.walk(st_) if y.get("k") == "var" and an.cellkey(g, y, s_) == iv]
+            if cur_nodes:
+                s_.cells["__cur0__"] = an.eval(g, cur_nodes[0], s_)[0][0]
+    an.on_loop_pre = lambda f_, h, s_: rec["pre"].append(s_.copy()) if f_ is g else None
+    an.on_loop_entry = entry
+    an.on_backedge = lambda f_, h, s_: rec["back"].append(s_.copy()) if f_ is g else None
+    an.run(g, L.State())
+    problems = []
+    if iv is None or not rec["pre"] or not rec["back"]:
         problems.append("walk not recognised")
     else:
-        iv = ivs.pop()
-        Bs, Es = L.lvar("ptr:slice->beg"), L.lvar("ptr:slice->end")
+        Bs = Es = None
         for s_ in rec["pre"]:
+            Bs = an.eval(g, {"k": "mem", "arrow": True, "b": dict(g.params[0], k="var"), "f": "beg", "pd": 1}, s_)[0][0]
             if iv not in s_.cells or not s_.entails_eq(L.lsub(s_.cells[iv], Bs)):
                 problems.append("the walk does not start at slice->beg")
         for s_ in rec["back"]:
-            c0 = L.lvar("ptr:%s" % iv) if s_.ver.get(iv, 0) == 0 else L.lvar("%s#%d" % (iv, s_.ver.get(iv, 1) - 1))
-            # the cursor symbol at the loop entry: the cell was havocked, so it is
-            # whatever symbol the first read created
-            cands = [c0, L.lvar("ptr:%s" % iv)]
-            if not any(s_.entails_le(L.ladd(L.lsub(c, Es), L.lconst(1))) for c in cands):
+            Es = an.eval(g, {"k": "mem", "arrow": True, "b": dict(g.params[0], k="var"), "f": "end", "pd": 1}, s_)[0][0]
+            c0 = s_.cells.get("__cur0__")
+            if c0 is None or not s_.entails_le(L.ladd(L.lsub(c0, Es), L.lconst(1))):
                 problems.append("a header is read although the cursor is not below slice->end (reads past the mapped region)")
     inst = "vfslice_split_at_delay_ms: headers are read only while cur < slice->end"
     if problems:
